@@ -15,7 +15,7 @@ ROOT = os.path.dirname(os.path.abspath(__file__))
 HARNESS = os.path.join(ROOT, "harness")
 GOSYM = os.path.join(ROOT, "bin", "gosym")
 ENV = dict(os.environ, GOFLAGS="-mod=mod", GOPROXY="off", GOSUMDB="off", GOTOOLCHAIN="local")
-ENGINE_ENV = dict(ENV, GOGC="400", GOMAXPROCS="3")
+ENGINE_ENV = dict(ENV, GOGC="400")
 NCPU = int(os.environ.get("VERIF_JOBS", "14"))
 
 
@@ -33,12 +33,21 @@ def ensure_engine():
             sys.exit(2)
 
 
+import threading
+ENGINE_SLOTS = threading.BoundedSemaphore(NCPU)
+
+
+def engine_call(cmd):
+    with ENGINE_SLOTS:
+        return subprocess.run(cmd, stdout=subprocess.PIPE, stderr=subprocess.STDOUT, text=True, env=ENGINE_ENV)
+
+
 def run_engine(run, tier, seed, workdir, idx):
     """one gosym process (one harness function, one parameter setting, one shard)"""
-    out = os.path.join(workdir, "res_%d.json" % idx)
+    out = os.path.join(workdir, "res_%s.json" % idx)
     if run.get("kind") == "metricscan":
         t0 = time.time()
-        r = subprocess.run([GOSYM, "-metricscan", "-dir", HARNESS, "-out", out], stdout=subprocess.PIPE, stderr=subprocess.STDOUT, text=True, env=ENGINE_ENV)
+        r = engine_call([GOSYM, "-metricscan", "-dir", HARNESS, "-out", out])
         res = json.load(open(out)) if os.path.exists(out) else None
         if res is not None:
             res.setdefault("paths_other_shard", 0)
@@ -48,9 +57,12 @@ def run_engine(run, tier, seed, workdir, idx):
     cmd = [GOSYM, "-dir", HARNESS, "-pkg", run["pkg"], "-fn", run["fn"], "-out", out,
            "-seed", str(seed), "-timeout", run.get("timeout", "20m"),
            "-maxpaths", str(run.get("maxpaths", 2000000)),
-           "-shard", "%d/%d" % (run.get("shard", 0), run.get("shards", 1)),
-           "-sharddepth", str(run.get("sharddepth", 4)),
-           "-crossval", str(run.get("crossval", 2))]
+           "-crossval", str(run.get("crossval", 4))]
+    if run.get("shards", 1) > 1:
+        # one process: phase 1 explores every path with fewer than `sharddepth` fork decisions and collects the
+        # decision prefixes at that depth; then `workers` goroutines (own machine + own z3 each) take the
+        # prefixes from a shared queue and explore their subtrees - no overlap, no gap, one package load
+        cmd += ["-prefixdepth", str(run.get("sharddepth", 6)), "-workers", str(min(run["shards"], NCPU))]
     if "maxsteps" in run:
         cmd += ["-maxsteps", str(run["maxsteps"])]
     if run.get("solver"):
@@ -58,7 +70,7 @@ def run_engine(run, tier, seed, workdir, idx):
     for k, v in sorted(run.get("params", {}).items()):
         cmd += ["-param", "%s=%d" % (k, v)]
     t0 = time.time()
-    r = subprocess.run(cmd, stdout=subprocess.PIPE, stderr=subprocess.STDOUT, text=True, env=ENGINE_ENV)
+    r = engine_call(cmd)
     res = None
     if os.path.exists(out):
         try:
@@ -230,22 +242,18 @@ def main():
     known_here = {f["id"]: f for f in known if f["property"] == pid and f["status"] == "known"}
     ensure_engine()
 
-    # expand runs (shards)
-    runs = []
-    for run in chk["runs"][tier]:
-        if args.only and args.only not in run["fn"]:
-            continue
-        n = run.get("shards", 1)
-        for s in range(n):
-            r = dict(run)
-            r["shard"] = s
-            runs.append(r)
+    # single-worker runs share the machine; a multi-worker run gets it to itself
+    runs = [dict(r) for r in chk["runs"][tier] if not (args.only and args.only not in r["fn"])]
     workdir = tempfile.mkdtemp(prefix="chk_%s_" % pid, dir=os.path.join(ROOT, ".work"))
-    results = []
+    results = [None] * len(runs)
+    small = [i for i, r in enumerate(runs) if r.get("shards", 1) <= 1]
+    big = [i for i, r in enumerate(runs) if r.get("shards", 1) > 1]
     with cf.ThreadPoolExecutor(max_workers=NCPU) as ex:
-        futs = [ex.submit(run_engine, r, tier, seed, workdir, i) for i, r in enumerate(runs)]
-        for f in futs:
-            results.append(f.result())
+        futs = {i: ex.submit(run_engine, runs[i], tier, seed, workdir, i) for i in small}
+        for i, f in futs.items():
+            results[i] = f.result()
+    for i in big:
+        results[i] = run_engine(runs[i], tier, seed, workdir, i)
 
     inconclusive = []
     violations = []   # (run, violation)
@@ -255,7 +263,7 @@ def main():
     per_run = []
     for r in results:
         res, run = r["res"], r["run"]
-        tag = "%s.%s%s[%d/%d]" % (run["pkg"], run["fn"], json.dumps(run.get("params", {}), sort_keys=True), run["shard"], run.get("shards", 1))
+        tag = "%s.%s%s[workers=%d]" % (run["pkg"], run["fn"], json.dumps(run.get("params", {}), sort_keys=True), min(run.get("shards", 1), NCPU))
         if res is None:
             inconclusive.append("%s: engine failed rc=%d: %s" % (tag, r["rc"], r["log"][-600:]))
             continue
